@@ -327,6 +327,16 @@ Definition parse_cell_gen (ch : N) (empty : Q) (s : str) : option Q :=
   | t => parse_float t
   end.
 
+(* the parse as the property states it: the double quote removed, the empty cell is 0 *)
+Definition parse_cell_spec (s : str) : option Q := parse_cell_gen 34%N 0%Q s.
+
+Definition oQeq (a b : option Q) : Prop :=
+  match a, b with
+  | Some p, Some q => Qeq p q
+  | None, None => True
+  | _, _ => False
+  end.
+
 (* ------------------------------------------------------------------------------------------ *)
 (* The fw family as its names describe it                                                        *)
 
